@@ -98,6 +98,8 @@ MUTANTS = [
      "_HAS_ONLY_A_TO_Z_NUM_HYPHEN = re.compile(r'^[A-Za-z0-9\\-]+\\Z')", "_HAS_ONLY_A_TO_Z_NUM_HYPHEN = re.compile(r'^[A-Za-z0-9\\-]+$')"),
     ("c19-surrogate-not-contained", "C19", "_utils/name.py",
      "        except UnicodeEncodeError as ex:", "        except ZeroDivisionError as ex:"),
+    ("c09-defaulted-host-does-not-follow-rename", "C09", "_services/info.py",
+     "        if self.server_key is not None and self.server_key == self.key:", "        if False:"),
     ("c10-kept-query-keeps-old-ttl", "C10", "_services/browser.py",
      "                current.ttl = int(pointer.ttl) if isinstance(pointer.ttl, float) else pointer.ttl\n"
      "                current.expire_time_millis = pointer.get_expiration_time(100)\n", ""),
